@@ -1,4 +1,5 @@
 import Resgate.Gw.Ops
+import Resgate.Gw.Reset
 
 /-
 The cache actors: one step = one queue item of one `EventSubscription`
@@ -166,7 +167,7 @@ def processGetResponse (eid rs : Nat) (ans : GetAns) : M (Nat × List SubRef) :=
 /-- `handleResetResource` of one resource. -/
 def resetResource (eid rs : Nat) (t : Option Nat) : M Unit := do
   let r ← getRes eid rs
-  if r.resetting then return
+  if !resetStarts r then return
   setRes eid rs { r with resetting := true }
   sendGet eid rs r.query true t
 
@@ -210,9 +211,8 @@ def runCItem (eid : Nat) (it : CItem) : M Unit := do
     let l := e.queries.length
     if l == 0 then return
     setEntry eid { e with locks := some (l, []) }
-    for (q, rs) in e.queries do
-      let r ← getRes eid rs
-      if r.state.toNat ≤ 2 then cacheEnqueueUnlock eid .noop
+    for (q, rs, asked) in queryPlan e do
+      if !asked then cacheEnqueueUnlock eid .noop
       else registerReq subject s!"query={q}" (.query eid rs)
   | .unsubscribe rs sub =>
     modEntry eid fun e => e.dropSub rs sub
@@ -281,9 +281,11 @@ def flushEvictions : M Unit := do
   for (eid, e) in g.entries do
     if e.evictPending then
       modEntry eid fun e => { e with evictPending := false }
-      if e.count > 0 then continue
-      if e.mqSub then emit s!"U event.{e.name}"
-      modEntry eid fun e => { e with queue := [] }
-      modify fun g => { g with index := g.index.filter (fun p => p.2 != eid) }
+      match evictDecision e.count e.evictPending e.mqSub with
+      | none => continue
+      | some unsub =>
+        if unsub then emit s!"U event.{e.name}"
+        modEntry eid fun e => { e with queue := [] }
+        modify fun g => { g with index := g.index.filter (fun p => p.2 != eid) }
 
 end Resgate.Gw
